@@ -162,6 +162,8 @@ def _amount_for(draw, w, rc, hit, provs=None):
             if w.has_room(p, rc, a):
                 good.add(a)
     if hit and good:
+        if getattr(w, 'rich', False):
+            return min(good)
         return draw(st.sampled_from(sorted(good)))
     return draw(st.integers(1, 14))
 
@@ -171,6 +173,8 @@ def _group_filters(draw, w, g, version, hit, provider=None, collective=None,
     """Add trait / aggregate / in_tree filters to group g.  provider: a
     provider the (suffixed) group is aimed at; collective: providers whose
     united traits an unsuffixed group may draw on."""
+    if getattr(w, 'rich', False) and draw(st.integers(0, 9)) < 7:
+        return
     pool_traits = set()
     pool_aggs = set()
     if provider is not None:
@@ -236,11 +240,12 @@ def _group_filters(draw, w, g, version, hit, provider=None, collective=None,
 
 
 @st.composite
-def queries(draw, d, version):
+def queries(draw, d, version, rich=False):
     """A valid allocation-candidates query for microversion 1.<version> over
     the names of the scope, biased towards what the state can satisfy."""
     w = World(d)
-    hit = draw(st.integers(0, 9)) < 9
+    w.rich = rich
+    hit = draw(st.integers(0, 9)) < 9 or rich
     inv_pairs = sorted(w.inv)
     groups = []
     have_unsuffixed = version < 25 or draw(st.integers(0, 9)) < 7
@@ -368,7 +373,7 @@ def rp_filters(draw, d, version):
     hit = draw(st.integers(0, 9)) < 8
     target = draw(st.sampled_from(w.providers)) if (w.providers and hit) \
         else None
-    k = draw(st.integers(1, 4))
+    k = draw(st.sampled_from([2, 3, 1, 4]))
     kinds = ['name', 'uuid']
     if version >= 3:
         kinds += ['member_of', 'member_of']
@@ -382,7 +387,8 @@ def rp_filters(draw, d, version):
         kinds += ['forbidden']
     if version >= 32:
         kinds += ['forbidden_aggs']
-    chosen = set(draw(st.lists(st.sampled_from(kinds), min_size=1, max_size=k)))
+    chosen = set(draw(st.lists(st.sampled_from(kinds), min_size=k,
+                               max_size=k)))
     for kind in sorted(chosen):
         if kind == 'name':
             f.name = d.providers[target]['name'] if target else 'nobody'
